@@ -99,7 +99,20 @@ fn has_oneway(net: &Net) -> bool {
     net.script.iter().any(|(_, a)| is_oneway(a)) || net.hacts.iter().any(|h| is_oneway(&h.act))
 }
 
-fn gen_style(rng: &mut Rng, n: usize, a: usize, b: usize) -> Style {
+fn gen_style(rng: &mut Rng, n: usize, a: usize, b: usize, literal: bool) -> Style {
+    let st = gen_style_named(rng, n, a, b);
+    if !literal {
+        return st;
+    }
+    // hosts registered by IP literal have no DNS name: no name, no regex
+    match st {
+        Style::Name => Style::IpStr,
+        Style::Regex | Style::RegexPlus(_) => Style::Ip,
+        other => other,
+    }
+}
+
+fn gen_style_named(rng: &mut Rng, n: usize, a: usize, b: usize) -> Style {
     match rng.below(8) {
         0..=2 => Style::Name,
         3 => Style::IpStr,
@@ -235,6 +248,9 @@ impl Property for C03 {
 
     fn generate(rng: &mut Rng, idx: u64, _tier: Tier) -> Scenario {
         let enumerate = idx % 4 == 0;
+        // every fifth traffic pattern: hosts registered by IP literal in a seeded order, so that "either address
+        // order of A and B" also meets links whose earlier-registered end has the larger address
+        let literal = idx % 5 == 2;
         let n = rng.usize(2, 4);
         let tick_ms = *rng.pick(&[1u64, 1, 2, 5, 7, 10, 20]);
         let tick = tick_ms * 1000;
@@ -326,7 +342,7 @@ impl Property for C03 {
             ephemeral: None,
             ipv6: rng.chance(1, 4),
         };
-        let mut net = Net { cfg, hosts: n, udp, conns, hacts: Vec::new(), script: Vec::new(), steps: 0, sample_links: false, probes: vec![] };
+        let mut net = Net { cfg, hosts: n, udp, conns, hacts: Vec::new(), script: Vec::new(), steps: 0, sample_links: false, probes: vec![], literal_order: vec![] };
         // ---- where the actions go
         let gen_slot = |rng: &mut Rng, step: u32| -> Slot {
             let host = if rng.chance(2, 5) {
@@ -339,7 +355,7 @@ impl Property for C03 {
             } else {
                 None
             };
-            Slot { host, step, style_a: gen_style(rng, n, a, b), style_b: gen_style(rng, n, b, a), flip: rng.bool() }
+            Slot { host, step, style_a: gen_style(rng, n, a, b, literal), style_b: gen_style(rng, n, b, a, literal), flip: rng.bool() }
         };
         let mut slots = Vec::new();
         if enumerate {
@@ -383,6 +399,22 @@ impl Property for C03 {
                 let act = if frng.bool() { Act::SetFailRateZero } else { Act::SetLinkFailRateZero(Sel::Name(a), Sel::Name(b)) };
                 net.script.push((frng.range(2, net.steps as u64) as u32, act));
             }
+        }
+        if literal {
+            let mut order: Vec<usize> = (0..n).collect();
+            let mut orng = rng.fork();
+            match orng.below(3) {
+                0 => order.reverse(),
+                _ => {
+                    for i in (1..n).rev() {
+                        order.swap(i, orng.usize(0, i));
+                    }
+                    if order.windows(2).all(|w| w[0] < w[1]) {
+                        order.reverse();
+                    }
+                }
+            }
+            net.literal_order = order;
         }
         Scenario { net, guarded: false, pair: (a, b), slots }
     }
@@ -622,6 +654,12 @@ impl Property for C03 {
         if lmin == lmax {
             rep.probes.inc("fixed_latency_run");
         }
+        if !net.literal_order.is_empty() {
+            rep.probes.inc("hosts_registered_by_ip_literal");
+            if net.literal_order.windows(2).any(|w| w[0] > w[1]) && calls.iter().any(|c| matches!(&tr.evs[c.ev].kind, EvKind::Act(a) if is_oneway(a))) {
+                rep.probes.inc("oneway_call_with_earlier_registered_host_at_larger_address");
+            }
+        }
         if !net.conns.is_empty() {
             rep.probes.inc("tcp_traffic");
         }
@@ -688,7 +726,7 @@ mod tests {
 
     #[test]
     fn fates_on_a_hand_written_history() {
-        let net = Net { cfg: SimCfg { min_latency_us: 3000, max_latency_us: 3000, ..SimCfg::default() }, hosts: 2, udp: vec![], conns: vec![], hacts: vec![], script: vec![], steps: 1, sample_links: false, probes: vec![] };
+        let net = Net { cfg: SimCfg { min_latency_us: 3000, max_latency_us: 3000, ..SimCfg::default() }, hosts: 2, udp: vec![], conns: vec![], hacts: vec![], script: vec![], steps: 1, sample_links: false, probes: vec![], literal_order: vec![] };
         let m = |s| EvKind::Send(Msg::Udp { from: 0, to: 1, seq: s });
         let evs = vec![
             ev(1, 2, 1000, Some(0), m(0)),                                                   // arrives at 4000/5000 <= 5000: flows
@@ -711,7 +749,7 @@ mod tests {
 
     #[test]
     fn one_tick_zone_is_unjudged() {
-        let net = Net { cfg: SimCfg::default(), hosts: 2, udp: vec![], conns: vec![], hacts: vec![], script: vec![], steps: 1, sample_links: false, probes: vec![] };
+        let net = Net { cfg: SimCfg::default(), hosts: 2, udp: vec![], conns: vec![], hacts: vec![], script: vec![], steps: 1, sample_links: false, probes: vec![], literal_order: vec![] };
         // sent at t=2200 inside step 3 (link clock 3000), latency 2000: sender-clock reading says arrived at 4200,
         // link-clock reading says 5000; a partition at 4500 (controller calls sit on boundaries, so use a host call)
         let evs = vec![
@@ -728,13 +766,13 @@ mod tests {
         let cfg = SimCfg { min_latency_us: 2000, max_latency_us: 2000, tick_us: 1000, ..SimCfg::default() };
         let conn = |at| Conn { from: 1, to: 0, at_ms: at, c2s: vec![], s2c: vec![], fin_c: None, fin_s: None, by_ip: false, drop_c: None };
         let udp = vec![UdpBurst { from: 0, to: 1, at_ms: 3, count: 1, by_ip: false }, UdpBurst { from: 1, to: 0, at_ms: 3, count: 1, by_ip: false }, UdpBurst { from: 0, to: 1, at_ms: 12, count: 1, by_ip: false }];
-        let net = Net { cfg: cfg.clone(), hosts: 2, udp: udp.clone(), conns: vec![conn(2), conn(12)], hacts: vec![], script: vec![(1, Act::Partition(Sel::Name(0), Sel::Name(1))), (10, Act::Repair(Sel::Name(0), Sel::Name(1)))], steps: 30, sample_links: false, probes: vec![] };
+        let net = Net { cfg: cfg.clone(), hosts: 2, udp: udp.clone(), conns: vec![conn(2), conn(12)], hacts: vec![], script: vec![(1, Act::Partition(Sel::Name(0), Sel::Name(1))), (10, Act::Repair(Sel::Name(0), Sel::Name(1)))], steps: 30, sample_links: false, probes: vec![], literal_order: vec![] };
         let rep = C03::run(&Scenario { net, guarded: true, pair: (0, 1), slots: vec![] }, true);
         assert!(rep.violation.is_none(), "{:?}\n{}", rep.violation, rep.log.join("\n"));
         assert!(rep.log.iter().any(|l| l.contains("ConnErr { conn: 0")));
         assert!(rep.log.iter().any(|l| l.contains("ConnOk { conn: 1")));
         assert_eq!(rep.log.iter().filter(|l| l.contains("Recv(Udp")).count(), 1);
-        let net = Net { cfg, hosts: 2, udp, conns: vec![], hacts: vec![], script: vec![(1, Act::PartitionOneway(Sel::Name(0), Sel::Name(1)))], steps: 30, sample_links: false, probes: vec![] };
+        let net = Net { cfg, hosts: 2, udp, conns: vec![], hacts: vec![], script: vec![(1, Act::PartitionOneway(Sel::Name(0), Sel::Name(1)))], steps: 30, sample_links: false, probes: vec![], literal_order: vec![] };
         let rep = C03::run(&Scenario { net, guarded: true, pair: (0, 1), slots: vec![] }, true);
         assert!(rep.violation.is_none(), "{:?}", rep.violation);
         assert_eq!(rep.log.iter().filter(|l| l.contains("Recv(Udp { from: 1")).count(), 1);
